@@ -22,6 +22,7 @@ import (
 	"strconv"
 	"strings"
 
+	"verifharness/c03/refo"
 	"verifharness/hx"
 	"verifharness/serixgen"
 
@@ -557,9 +558,14 @@ func (x *sess) line(op string) string {
 		ans = "harness-panic"
 	}
 	x.r.Line(op, ans)
+	rec.Line(op, ans)
 
 	return ans
 }
+
+var rec *refo.Rec
+
+const driverPath = "../lean/.lake/build/bin/drv_c03"
 
 // ---- generator ----
 
@@ -828,7 +834,7 @@ func stampAbove(b []byte, off int) bool {
 }
 
 func genCase(r *hx.Run, rng *hx.Rng, sub uint64) {
-	r.Case(sub)
+	rec.Start(r.Case(sub))
 	x := &sess{r: r}
 	big_ := rng.Chance(1, 12)
 	n := rng.Range(1, 7)
@@ -1015,18 +1021,20 @@ func main() {
 	r.Rule = "scripts of 1..7 Serializer calls (every WriteX, boundary values, prefix-capacity lengths, all array-rule modes) followed by the mirrored " +
 		"Deserializer calls on the produced bytes and on 3 mutated inputs; non-trivial = the write script succeeded; distinct by the produced bytes"
 	r.MaxSamples = 2
+	rec = &refo.Rec{R: r, Layer: "serializer-primitives"}
 	if lines := r.ReplayLines(); lines != nil {
-		r.Case(0)
+		rec.Start(r.Case(0))
 		x := &sess{r: r}
 		for _, l := range lines {
 			x.line(l)
 		}
+		rec.Finish(driverPath)
 		r.Finish()
 
 		return
 	}
 	for _, c := range corpus {
-		r.Case(0)
+		rec.Start(r.Case(0))
 		x := &sess{r: r}
 		for _, l := range c {
 			x.line(l)
@@ -1042,5 +1050,6 @@ func main() {
 		rng, sub := r.Rng.Fork()
 		genXCase(r, rng, sub)
 	}
+	rec.Finish(driverPath)
 	r.Finish()
 }
